@@ -1,6 +1,6 @@
 (* Properties_C06.v — C06: nodes checkpoints track the consumer position under every thread interleaving.
    Model: ConcModel.v; proofs: ConcInv.v. *)
-From PD Require Import Base ConcModel ConcObs ConcInv ConcLive ConcOwner ConcSnap.
+From PD Require Import Base ConcModel ConcObs ConcInv ConcLive ConcOwner ConcSnap ConcPM.
 Open Scope nat_scope.
 
 (* FULL statement (target): in every reachable state of every schedule in which no join() of an old read thread timed
@@ -19,13 +19,43 @@ Definition C06_tracks_consumer_statement : Prop :=
    current iterator would return satisfies snapshot + steps_since_snapshot = start position + items received — exactly
    the consumer's position, never the reader's — and the snapshot is never ahead of the consumer.  (Invariant PFinv in
    ConcSnap.v: reader position, store contents position = base + version, consecutive queue indices, what the consumer
-   holds; lifted over resets with ConcOwner's single-ownership invariant.)  ParallelMapper(in_order) remains a target. *)
+   holds; lifted over resets with ConcOwner's single-ownership invariant.) *)
 Theorem C06_prefetcher_tracks_consumer : forall c, k_pm c = false -> forall script sched,
   jt_free c (init script) sched = true ->
   forall g, cur (run c sched (init script)) = Some g ->
   g_snap g + g_steps g = g_base g + g_recv g /\ g_snap g <= g_base g + g_recv g.
 Proof. exact prefetcher_tracks_consumer. Qed.
 Print Assumptions C06_prefetcher_tracks_consumer.
+
+(* PROVED for ParallelMapper(in_order=True, method="thread"), any num_workers, max_concurrent, snapshot_frequency, map_fn
+   (raising or not), source (failing or not), consumer script: along EVERY interleaving of the read thread, the worker
+   threads, the sort thread and the consumer (primitive granularity, timeouts included; same exclusion D10), in EVERY
+   reachable state, snapshot + steps_since_snapshot = start position + entries consumed.  (Invariant PMinv in ConcPM.v:
+   every index is in flight at most once and only inside [cur_idx, next index), payload at index i = map_fn(source[base+i]),
+   the sorter's output carries consecutive indices, store contents position = base + version.)  With the Prefetcher
+   theorem this is C06_tracks_consumer_statement on every jt_free schedule. *)
+Theorem C06_parallel_mapper_tracks_consumer : forall c, k_pm c = true -> k_inorder c = true -> forall script sched,
+  jt_free c (init script) sched = true ->
+  forall g, cur (run c sched (init script)) = Some g ->
+  g_snap g + g_steps g = g_base g + g_recv g /\ g_snap g <= g_base g + g_recv g.
+Proof.
+  intros c Hpm Hio script sched Hj g Eg.
+  pose proof (proj2 (parallel_mapper_is_ordered_map c Hpm Hio script sched Hj g Eg)) as HM. split; [exact HM | lia].
+Qed.
+Print Assumptions C06_parallel_mapper_tracks_consumer.
+
+(* the statement above, for both node kinds, on every schedule without a reader-join timeout *)
+Theorem C06_tracks_consumer_jt_free : forall c script sched g,
+  (k_pm c = false \/ k_inorder c = true) ->
+  jt_free c (init script) sched = true ->
+  cur (run c sched (init script)) = Some g ->
+  g_snap g + g_steps g = g_base g + g_recv g.
+Proof.
+  intros c script sched g Hk Hj Eg. destruct (k_pm c) eqn:Epm.
+  - destruct Hk as [Hk|Hk]; [discriminate|]. exact (proj1 (C06_parallel_mapper_tracks_consumer c Epm Hk script sched Hj g Eg)).
+  - exact (proj1 (C06_prefetcher_tracks_consumer c Epm script sched Hj g Eg)).
+Qed.
+Print Assumptions C06_tracks_consumer_jt_free.
 
 (* the snapshot store's hand-off discipline, for every store content *)
 (* (1) a snapshot is adopted only for exactly the received item's version *)
@@ -54,3 +84,11 @@ Example C06_example :
   let s := run ex_cfg (rr ex_cfg 60) (init [KReset None; KNext; KNext; KNext; KState; KNext]) in
   firstn 5 (s_obs s) = [ObsReset; ObsItem 110; ObsItem 111; ObsItem 112; ObsState 2 1] /\ 4 <= s_pos s.
 Proof. vm_compute. split; [reflexivity | repeat constructor]. Qed.
+
+(* the hypotheses of the ParallelMapper theorem are met by that run: no reader-join timeout, a current generation that has
+   consumed 3 entries while the reader is ahead *)
+Example C06_pm_example_hyps :
+  let sch := rr ex_cfg 60 in let sc := [KReset None; KNext; KNext; KNext; KState; KNext] in
+  jt_free ex_cfg (init sc) sch = true /\
+  match cur (run ex_cfg sch (init sc)) with Some g => g_recv g = 4 /\ g_base g = 0 | None => False end.
+Proof. vm_compute. split; [reflexivity | split; reflexivity]. Qed.
